@@ -1,0 +1,115 @@
+//go:build verif
+
+package lua
+
+// Read-only accessors and thin wrappers used by the external verification harness.
+// This file is compiled only with `-tags verif`; it adds code and changes none.
+
+// VerifStringConstants exposes the string-constant side table the VM indexes for
+// GETGLOBAL/SETGLOBAL/GETTABLEKS/SETTABLEKS/SELF.
+func VerifStringConstants(p *FunctionProto) []string { return p.stringConstants }
+
+// VerifSnap is a read-only summary of the interpreter state of one thread.
+type VerifSnap struct {
+	Sp             int   // call-stack depth
+	Top            int   // registry top
+	HasFrame       bool  // currentFrame != nil
+	FrameIdx       int   // currentFrame.Idx or -1
+	LocalBase      int   // currentFrame.LocalBase or -1
+	HasErrFunc     bool  // hasErrorFunc
+	Wrapped        bool  // coroutine.wrap thread
+	Dead           bool  //
+	Stop           int32 //
+	OpenUpvalues   []int // register indices of open upvalues, in list order
+	UpvaluesSorted bool  // list is sorted ascending by register index
+}
+
+func VerifSnapshot(ls *LState) VerifSnap {
+	s := VerifSnap{Sp: ls.stack.Sp(), Top: ls.reg.Top(), HasFrame: ls.currentFrame != nil, FrameIdx: -1, LocalBase: -1,
+		HasErrFunc: ls.hasErrorFunc, Wrapped: ls.wrapped, Dead: ls.Dead, Stop: ls.stop, UpvaluesSorted: true}
+	if ls.currentFrame != nil {
+		s.FrameIdx = ls.currentFrame.Idx
+		s.LocalBase = ls.currentFrame.LocalBase
+	}
+	last := -1
+	for uv := ls.uvcache; uv != nil; uv = uv.next {
+		s.OpenUpvalues = append(s.OpenUpvalues, uv.index)
+		if uv.index < last {
+			s.UpvaluesSorted = false
+		}
+		last = uv.index
+	}
+	return s
+}
+
+// VerifCurrentThread returns the thread the global state believes is running.
+func VerifCurrentThread(ls *LState) *LState { return ls.G.CurrentThread }
+
+// VerifFrameStack drives one of the two call-frame stack implementations directly.
+// Frames are identified by an integer token stored in callFrame.NArgs.
+type VerifFrameStack struct{ s callFrameStack }
+
+func VerifNewFixedStack(size int) *VerifFrameStack {
+	return &VerifFrameStack{newFixedCallFrameStack(size)}
+}
+func VerifNewAutoStack(maxSize int) *VerifFrameStack {
+	return &VerifFrameStack{newAutoGrowingCallFrameStack(maxSize)}
+}
+func (v *VerifFrameStack) Push(token int) { v.s.Push(callFrame{NArgs: token}) }
+func (v *VerifFrameStack) Pop() (token, idx int, ok bool) {
+	f := v.s.Pop()
+	if f == nil {
+		return 0, 0, false
+	}
+	return f.NArgs, f.Idx, true
+}
+func (v *VerifFrameStack) Last() (token, idx int, ok bool) {
+	f := v.s.Last()
+	if f == nil {
+		return 0, 0, false
+	}
+	return f.NArgs, f.Idx, true
+}
+func (v *VerifFrameStack) At(sp int) (token, idx int) {
+	f := v.s.At(sp)
+	return f.NArgs, f.Idx
+}
+func (v *VerifFrameStack) SetSp(sp int)  { v.s.SetSp(sp) }
+func (v *VerifFrameStack) Sp() int       { return v.s.Sp() }
+func (v *VerifFrameStack) IsFull() bool  { return v.s.IsFull() }
+func (v *VerifFrameStack) IsEmpty() bool { return v.s.IsEmpty() }
+func (v *VerifFrameStack) FreeAll()      { v.s.FreeAll() }
+
+// VerifRegistry drives a registry directly; Overflow counts handler invocations.
+type VerifRegistry struct {
+	r        *registry
+	Overflow int
+}
+
+type verifOverflow struct{}
+
+func (v *VerifRegistry) registryOverflow() {
+	v.Overflow++
+	panic(verifOverflow{})
+}
+
+// VerifIsOverflow reports whether a recovered panic value is the registry overflow signal.
+func VerifIsOverflow(r interface{}) bool { _, ok := r.(verifOverflow); return ok }
+
+func VerifNewRegistry(initialSize, growBy, maxSize int) *VerifRegistry {
+	v := &VerifRegistry{}
+	v.r = newRegistry(v, initialSize, growBy, maxSize, newAllocator(32))
+	return v
+}
+func (v *VerifRegistry) Push(x LValue)                       { v.r.Push(x) }
+func (v *VerifRegistry) Pop() LValue                         { return v.r.Pop() }
+func (v *VerifRegistry) Get(i int) LValue                    { return v.r.Get(i) }
+func (v *VerifRegistry) Set(i int, x LValue)                 { v.r.Set(i, x) }
+func (v *VerifRegistry) SetNumber(i int, x LNumber)          { v.r.SetNumber(i, x) }
+func (v *VerifRegistry) SetTop(n int)                        { v.r.SetTop(n) }
+func (v *VerifRegistry) Top() int                            { return v.r.Top() }
+func (v *VerifRegistry) CopyRange(regv, start, limit, n int) { v.r.CopyRange(regv, start, limit, n) }
+func (v *VerifRegistry) FillNil(regm, n int)                 { v.r.FillNil(regm, n) }
+func (v *VerifRegistry) Insert(x LValue, reg int)            { v.r.Insert(x, reg) }
+func (v *VerifRegistry) IsFull() bool                        { return v.r.IsFull() }
+func (v *VerifRegistry) Cap() int                            { return cap(v.r.array) }
